@@ -224,6 +224,7 @@ var extErrClasses = []struct {
 	{regexp.MustCompile(`cannot extend service .* not found`), "notFound"},
 	{regexp.MustCompile(`^services\..* must be a mapping`), "serviceNotMapping"},
 	{regexp.MustCompile(`no such file or directory`), "fileNotFound"},
+	{regexp.MustCompile(`^unexpected type `), "pathNotString"}, // paths.ResolveRelativePaths on the extended file: extends.file of a non-string kind
 }
 
 func realExtends(raw json.RawMessage) any {
